@@ -102,6 +102,30 @@ def run(ctx, crate):
         pos = lambda ev: rpo.get(ev.site[-1][1], 1 << 30)
         oksm = len(ps) == 1 and ps[0].args[3] == C('bool', 0) and len(sorts) == 1 and len(dedups) == 1 and pos(sorts[0]) < pos(dedups[0]) < pos(ps[0])
         ctx.report(clause, "internal:small-ellipse-branch-sorted-dedup-partial", oksm, "neighbour cells are sorted, then de-duplicated, then pushed with flag false", at=bd.span, kind="N")
+        # the filter closure of the small-ellipse branch: a neighbour whose centre is inside the
+        # ellipse is kept whatever overlap_cone says (overlap_cone has a special case returning
+        # false when the projected point is exactly the origin)
+        clos = [p for p in crate.bodies if p.startswith(fn + "::{closure") and EC + "contains" in crate.callees(p)]
+        okk = False; nclo = 0
+        for cp in clos:
+            cb = crate.body(cp)
+            ce0 = Engine(crate, opaque={EC + "contains", EC + "overlap_cone", L + "center"})
+            from sym import State
+            envv = ('sym', ('env',))
+            st0 = State(); st0.heap[('tmp', 'env')] = envv
+            args0 = [('ref_t', ('tmp', 'env')) if cb.local_ty(1)["k"] == "ref" else envv] + [('p', 'a%d' % i) for i in range(1, cb.arg_count)]
+            ce0.run_body(cb, args0, st0, fk=((cp, -1),), stack=(cp,))
+            cts = [ev for ev in ce0.events.values() if ev.callee == EC + "contains"]
+            if len(cts) != 1: continue
+            nclo += 1
+            tgt = cts[0].ret
+            ce = Engine(crate, opaque={EC + "contains", EC + "overlap_cone", L + "center"}, assume=lambda t, tgt=tgt: True if t == tgt else None)
+            st1 = State(); st1.heap[('tmp', 'env')] = envv
+            r1 = ce.run_body(cb, args0, st1, fk=((cp, -1),), stack=(cp,))
+            if r1.returns and r1.ret == C('bool', 1): okk = True
+        ctx.report(clause, "internal:small-ellipse-filter-keeps-centre-inside", okk and nclo == 1,
+                   "the neighbour filter returns true whenever ellipse.contains(centre of the cell) holds" if okk else
+                   "the neighbour filter of the small-ellipse branch can reject a cell whose centre is inside the ellipse (%d candidate closures)" % nclo, at=bd.span, kind="N")
         sv = [ev for ev in evs if ev.callee and strip_generics(ev.callee).endswith("MainWindMap::sorted_values")]
         ctx.report(clause, "internal:roots-sorted", len(sv) == 1, "recursion roots come from neighbours(..).sorted_values()", at=bd.span, kind="N")
     for fn, want in ((L + "elliptical_cone_coverage", "to_bmoc_packing"), (L + "elliptical_cone_coverage_custom", None)):
